@@ -78,6 +78,9 @@ type HistIn struct {
 	// Comp: a second binding of the same kind and names with STATIC namespaces, in the same process
 	// (model coq/theories/C01_Comp.v): its informers share the first binding's shared informers
 	Comp *CompIn `json:"comp,omitempty"`
+	// Relist: the history may contain watch outages (steps of kind "outage", relist.go; model
+	// coq/theories/C01_Relist.v): the fake API server gets a switch in front of the resource kind
+	Relist bool `json:"relist,omitempty"`
 }
 
 // CompIn: the companion binding.  First: its monitor is created, started and unlocked before the
@@ -133,6 +136,7 @@ type histRun struct {
 	dirty             map[int]bool // object operations since the namespace's last flush
 	nonce             int
 	note              string
+	oc                *outageCtl // the switch that breaks the API server (histories with outages)
 }
 
 func (d *histRun) setNote(s string) {
@@ -294,6 +298,10 @@ func (d *histRun) waitStopped(n int) {
 func (d *histRun) syncObjWatch(n int) { d.syncObjWatchOf(d.vm, n) }
 
 func (d *histRun) syncObjWatchOf(vm *kubeeventsmanager.VerifC01Monitor, n int) {
+	d.syncObjWatchWithin(vm, n, histBound)
+}
+
+func (d *histRun) syncObjWatchWithin(vm *kubeeventsmanager.VerifC01Monitor, n int, bound time.Duration) {
 	dyn := d.fc.Client.Dynamic().Resource(histGVR).Namespace(hNs(n))
 	id := hNs(n) + "/ConfigMap/" + hObj(0)
 	wait := func(want bool) bool {
@@ -322,7 +330,7 @@ func (d *histRun) syncObjWatchOf(vm *kubeeventsmanager.VerifC01Monitor, n int) {
 			exists = true
 		}
 	}
-	deadline := time.Now().Add(histBound)
+	deadline := time.Now().Add(bound)
 	seen := false
 	for !seen && time.Now().Before(deadline) {
 		put()
@@ -343,7 +351,7 @@ func (d *histRun) syncObjWatchOf(vm *kubeeventsmanager.VerifC01Monitor, n int) {
 	if exists {
 		dyn.Delete(d.ctx, hObj(0), metav1.DeleteOptions{})
 	}
-	d.setNote(fmt.Sprintf("the watch of namespace %d did not deliver within %v", n, histBound))
+	d.setNote(fmt.Sprintf("the watch of namespace %d did not deliver within %v", n, bound))
 }
 
 // syncNsWatch returns when the namespace informer's watch delivers (sentinel namespace ns0).
@@ -420,6 +428,14 @@ func RunHist(in HistIn, ops []Op) HistObs {
 	defer cancel()
 	d.ctx = ctx
 	mstor := metricstorage.NewMetricStorage(bg, "c01h_", true, log.NewNop())
+	if in.Relist {
+		oc, err := installOutageCtl(d)
+		if err != nil {
+			o.Note = "outage switch: " + err.Error()
+			return o
+		}
+		d.oc = oc
+	}
 	nsc := d.fc.Client.CoreV1().Namespaces()
 	dync := d.fc.Client.Dynamic().Resource(histGVR)
 	putNs := func(n int, match bool) {
@@ -523,19 +539,24 @@ func RunHist(in HistIn, ops []Op) HistObs {
 		return o
 	}
 
+	delObj := func(ns, name int) {
+		k := [2]int{ns, name}
+		if _, ok := d.objs[k]; ok {
+			if err := dync.Namespace(hNs(ns)).Delete(bg, hObj(name), metav1.DeleteOptions{}); err != nil {
+				d.setNote("object delete: " + err.Error())
+			}
+			delete(d.objs, k)
+			d.dirty[ns] = true
+		}
+	}
 	for _, op := range ops {
 		switch op.Kind {
 		case "set":
 			putObj(HObj{op.Ns, op.Name, op.Proj})
 		case "del":
-			k := [2]int{op.Ns, op.Name}
-			if _, ok := d.objs[k]; ok {
-				if err := dync.Namespace(hNs(op.Ns)).Delete(bg, hObj(op.Name), metav1.DeleteOptions{}); err != nil {
-					d.setNote("object delete: " + err.Error())
-				}
-				delete(d.objs, k)
-				d.dirty[op.Ns] = true
-			}
+			delObj(op.Ns, op.Name)
+		case "outage":
+			d.outage(op.Inner, putObj, delObj)
 		case "ns_set":
 			was := d.nsLab[op.Ns]
 			d.nsLab[op.Ns] = op.Label
@@ -663,7 +684,13 @@ func RenderHist(in HistIn, ops []Op, obs *HistObs, crash string) core.Case {
 		core.CoqList(in.Nss, func(s HNsState) string { return fmt.Sprintf("(%d, %s)", s.Ns, core.CoqBool(s.Label)) }),
 		core.CoqList(ops, coqHop))
 	bad := core.CoqBool(crash != "" || o.Note != "")
-	if in.Comp == nil {
+	if in.Relist {
+		cfg := fmt.Sprintf("(mkHistIn %s %s %s %s %s [])",
+			core.CoqList(in.Names, core.CoqN), core.CoqList(in.Types, coqKind), core.CoqBool(in.Filter),
+			core.CoqList(in.Initial, func(ob HObj) string { return fmt.Sprintf("(%d, %d, %d)", ob.Ns, ob.Name, ob.Proj) }),
+			core.CoqList(in.Nss, func(s HNsState) string { return fmt.Sprintf("(%d, %s)", s.Ns, core.CoqBool(s.Label)) }))
+		c.Coq = fmt.Sprintf("CRelist %s\n %s\n (mkHOb %s %d %s)", cfg, core.CoqList(ops, coqRhop), coqEvs(o.Out), o.Before, bad)
+	} else if in.Comp == nil {
 		c.Coq = fmt.Sprintf("CHist %s\n (mkHOb %s %d %s)", histIn, coqEvs(o.Out), o.Before, bad)
 	} else {
 		c.Coq = fmt.Sprintf("CHist2 %s\n (mkCompIn %s %s %s %s)\n (mkHOb %s %d %s)\n (mkHOb %s %d %s)", histIn,
@@ -671,7 +698,7 @@ func RenderHist(in HistIn, ops []Op, obs *HistObs, crash string) core.Case {
 			coqEvs(o.Out), o.Before, bad, coqEvs(o.COut), o.CBefore, bad)
 	}
 	c.JSON = map[string]any{"hist": o, "crash": crash}
-	c.Key = "hist" + fmt.Sprint(in.Names, in.Types, in.Filter, in.Initial, in.Nss, in.SelExpr, ops)
+	c.Key = "hist" + fmt.Sprint(in.Names, in.Types, in.Filter, in.Initial, in.Nss, in.SelExpr, in.Relist, ops)
 	if in.Comp != nil {
 		c.Key += fmt.Sprint(*in.Comp)
 	}
@@ -758,9 +785,21 @@ func RenderHist(in HistIn, ops []Op, obs *HistObs, crash string) core.Case {
 			nsOps++
 			stop(op.Ns)
 			delete(lab, op.Ns)
+		case "outage":
+			for _, x := range op.Inner {
+				if x.Kind == "set" {
+					objs[[2]int{x.Ns, x.Name}] = true
+				} else {
+					delete(objs, [2]int{x.Ns, x.Name})
+				}
+			}
 		}
 	}
-	c.Tags = []string{"class:hist", fmt.Sprintf("hist-ops:%02d", len(ops)/4*4), fmt.Sprintf("hist-types:%d", len(in.Types)),
+	class := "class:hist"
+	if in.Relist {
+		class = "class:relist"
+	}
+	c.Tags = []string{class, fmt.Sprintf("hist-ops:%02d", len(ops)/4*4), fmt.Sprintf("hist-types:%d", len(in.Types)),
 		fmt.Sprintf("hist-filter:%v", in.Filter), fmt.Sprintf("hist-namesel:%v", len(in.Names) > 0), fmt.Sprintf("hist-events:%02d", len(o.Out)/3*3)}
 	if in.Comp != nil {
 		c.Tags = append(c.Tags, "hist-companion", fmt.Sprintf("hist-companion-first:%v", in.Comp.First),
@@ -774,6 +813,14 @@ func RenderHist(in HistIn, ops []Op, obs *HistObs, crash string) core.Case {
 	for t := range tags {
 		c.Tags = append(c.Tags, t)
 	}
+	if in.Relist {
+		rt, outages, effective := relistTags(in, ops)
+		c.Tags = append(c.Tags, rt...)
+		c.Tags = append(c.Tags, fmt.Sprintf("relist-outages:%d", outages))
+		sort.Strings(c.Tags)
+		c.Nontrivial = outages >= 1 && effective >= 1 && len(o.Out) >= 1
+		return c
+	}
 	sort.Strings(c.Tags)
 	c.Nontrivial = nsOps >= 1 && objOps >= 2 && len(o.Out) >= 1
 	return c
@@ -781,8 +828,11 @@ func RenderHist(in HistIn, ops []Op, obs *HistObs, crash string) core.Case {
 
 // ---- generation ----
 
-func genHist(r *core.Rng, nOps int, allowBrought bool) (HistIn, []Op) {
+// genHist: outages > 0 inserts that many watch outages (steps of kind "outage" carrying 1-5 object
+// operations, mostly on matching namespaces and existing objects) at random places.
+func genHist(r *core.Rng, nOps int, allowBrought bool, outages int) (HistIn, []Op) {
 	var in HistIn
+	in.Relist = outages > 0
 	onlyName := 0
 	if r.Chance(20) {
 		// the fake cluster ignores field selectors: one selected name, carried by every object
@@ -844,7 +894,73 @@ func genHist(r *core.Rng, nOps int, allowBrought bool) (HistIn, []Op) {
 		}
 		return false
 	}
-	for len(ops) < nOps {
+	// one object operation during an outage: mostly where the binding watches, mostly on what exists
+	innerOp := func() Op {
+		ns := 1 + r.Intn(3)
+		if !lab[ns] && r.Chance(85) {
+			var ms []int
+			for _, m := range []int{1, 2, 3} {
+				if lab[m] {
+					ms = append(ms, m)
+				}
+			}
+			if len(ms) > 0 {
+				ns = ms[r.Intn(len(ms))]
+			}
+		}
+		n := pickName()
+		if r.Chance(60) {
+			// an object that exists in that namespace, if any
+			for _, nm := range names() {
+				if _, ok := state[[2]int{ns, nm}]; ok && r.Chance(60) {
+					n = nm
+				}
+			}
+		}
+		cur, ok := state[[2]int{ns, n}]
+		switch {
+		case ok && r.Chance(45):
+			delete(state, [2]int{ns, n})
+			return Op{Kind: "del", Ns: ns, Name: n}
+		case ok:
+			p := r.Intn(40)
+			switch y := r.Intn(100); {
+			case y < 25: // outside the jqFilter
+				p = cur%10 + 10*((cur/10+1+r.Intn(3))%4)
+			case y < 35: // the same content again
+				p = cur
+			}
+			state[[2]int{ns, n}] = p
+			return Op{Kind: "set", Ns: ns, Name: n, Proj: p}
+		}
+		p := r.Intn(40)
+		state[[2]int{ns, n}] = p
+		return Op{Kind: "set", Ns: ns, Name: n, Proj: p}
+	}
+	var outPos []int
+	for len(outPos) < outages {
+		outPos = append(outPos, r.Intn(nOps))
+	}
+	sort.Ints(outPos)
+	for len(ops) < nOps || len(outPos) > 0 {
+		if len(outPos) > 0 && len(ops) >= outPos[0] {
+			outPos = outPos[1:]
+			o := Op{Kind: "outage"}
+			for k := 1 + r.Intn(5); k > 0; k-- {
+				x := innerOp()
+				if !lab[x.Ns] && !allowBrought {
+					// what is left in a namespace that does not match would be brought along later
+					if x.Kind == "set" {
+						delete(state, [2]int{x.Ns, x.Name})
+						o.Inner = append(o.Inner, x, Op{Kind: "del", Ns: x.Ns, Name: x.Name})
+						continue
+					}
+				}
+				o.Inner = append(o.Inner, x)
+			}
+			ops = append(ops, o)
+			continue
+		}
 		switch x := r.Intn(100); {
 		case x < 55: // object operation
 			ns := 1 + r.Intn(3)
